@@ -404,8 +404,12 @@ REGISTRY = {
                         "batch ids non-zero (snowflake ids are positive); file-system calls do not fail"],
     },
     "C06": {
-        "corr": lambda tier, seed: corr_engine("C06", tier, seed, "mergeheavy,racingmerge,batches,bigvals", 120, 3000, ops=30,
-                                               dflags="-noevents -skip stat,pos", oracle_props=["C06", "C02", "C01", "C05"]),
+        "corr": lambda tier, seed: corr_merge_results(
+            corr_engine("C06", tier, seed, "mergeheavy,racingmerge,batches,bigvals", 120, 3000, ops=30,
+                        dflags="-noevents -skip stat,pos", oracle_props=["C06", "C02", "C01", "C05", "C07"]),
+            # "not after the restart that adopts the merged files, and not after any later restart" - also when the adopting
+            # restart is interrupted and run again: crash scans of Merge and of the adopting Open
+            corr_crash("C06", tier, seed + 23, ["merge"], 16, 400, oracle_props=["C07", "C06", "C03"])),
         "assumptions": ["the order in which Merge scans its input files is an input of the model, observed from the implementation (hook H5); the theorems need it to cover every data file, which the driver checks for every observed order (Go ranges over the map of all older files)",
                         "merges run between operations (Merge holds the engine lock while it scans: C09); interleavings with concurrent writers are not part of this model",
                         "file listings (ids, logical sizes, merge directory presence) after every merge, close and open are compared between model and implementation; batch ids non-zero; file-system calls do not fail"],
